@@ -166,7 +166,15 @@ func genC19(t *Tape, tier string) *Scenario {
 		total := 70000
 		seg := []int{1000, 4096, 8000, 333}[t.Intn(4)]
 		pfx := []string{"", "NOOP ", "MAIL FROM:<ok-long@a.example> "}[t.Intn(3)]
-		steps = append(steps, Step{Kind: kGarbage, Data: []byte(pfx + strings.Repeat("A", total)), Segs: []int{seg}, Gaps: []Dur{t.SmallDur()}})
+		// what the line is made of: letters, or letters with a CR (or NUL, SP, HT) at intervals
+		// shorter than the limit - anything but LF, which alone ends a line
+		filler := strings.Repeat("A", total)
+		if k := t.Intn(5); k > 0 {
+			unit := strings.Repeat("a", []int{7, 49, 63}[t.Intn(3)]) + []string{"", "\r", "\x00", " ", "\t"}[k]
+			filler = strings.Repeat(unit, total/len(unit)+1)[:total]
+			x.Form = k
+		}
+		steps = append(steps, Step{Kind: kGarbage, Data: []byte(pfx + filler), Segs: []int{seg}, Gaps: []Dur{t.SmallDur()}})
 		x.Judged = true
 	case 2:
 		alpha := []byte{0, '\r', '\n', ' ', 'A', ':', '<'}
@@ -465,6 +473,9 @@ func classifyC19(sc *Scenario, h *History, st *Stats) string {
 		}
 	case 1:
 		st.Probes["endless_line"]++
+		if x.Form == 1 {
+			st.Probes["endless_line_with_CR_at_intervals"]++
+		}
 		if x.Pos == 3 || x.Pos == 6 {
 			st.Probes["endless_line_after_bdat_chunk"]++
 		}
@@ -502,7 +513,7 @@ func segKey(sc *Scenario) string {
 func init() {
 	register(&Property{
 		ID: "C19", Level: "exploration",
-		Rule:     "raw driver sends (0) a probe line of length limit-2..limit+3, limit+50, 2*limit (CRLF included; NOOP padded or MAIL padded with spaces) for limits 64/200/2000 at seven conversation positions (after a BDAT chunk - lock-step or in the chunk's own segment -, after a chunk the backend refused, inside an AUTH exchange where the line is the base64 response to a 334, ...), whole or cut so that the limit is crossed inside one segment or across segments; (1) an endless LF-free stream of 70000 octets at four positions including after a BDAT chunk; (2) every string of length <= 4 over {NUL,CR,LF,SP,A,:,<} as a command line, repeated 1-4 times; (3) seeded binary; (4) mixes of valid and malformed commands around the fourth error, checked against a reference error counter; (5) MAIL and RCPT arguments built from fragments - paths (quoted, source-routed, literal, unterminated, doubled brackets, 8-bit) and parameters of every extension (SIZE, BODY, SMTPUTF8, REQUIRETLS, RET, ENVID, AUTH, NOTIFY, ORCPT rfc822/utf-8 with escapes cut short, RRVS), each alone (systematic) and in drawn combinations, with all extensions enabled: no panic, five replies, the connection stays usable. Every case is non-trivial by construction; distinct by (kind, limit, length, form, position, lines, segmentation). Length limit+1 is generated but not judged. The error flood also comes from a peer that does not take the replies (reply writes fail, or block until WriteTimeout), with a sentinel command behind it.",
+		Rule:     "raw driver sends (0) a probe line of length limit-2..limit+3, limit+50, 2*limit (CRLF included; NOOP padded or MAIL padded with spaces) for limits 64/200/2000 at seven conversation positions (after a BDAT chunk - lock-step or in the chunk's own segment -, after a chunk the backend refused, inside an AUTH exchange where the line is the base64 response to a 334, ...), whole or cut so that the limit is crossed inside one segment or across segments; (1) an endless LF-free stream of 70000 octets (letters, or letters with CR, NUL, SP or HT at intervals shorter than the limit) at four positions including after a BDAT chunk; (2) every string of length <= 4 over {NUL,CR,LF,SP,A,:,<} as a command line, repeated 1-4 times; (3) seeded binary; (4) mixes of valid and malformed commands around the fourth error, checked against a reference error counter; (5) MAIL and RCPT arguments built from fragments - paths (quoted, source-routed, literal, unterminated, doubled brackets, 8-bit) and parameters of every extension (SIZE, BODY, SMTPUTF8, REQUIRETLS, RET, ENVID, AUTH, NOTIFY, ORCPT rfc822/utf-8 with escapes cut short, RRVS), each alone (systematic) and in drawn combinations, with all extensions enabled: no panic, five replies, the connection stays usable. Every case is non-trivial by construction; distinct by (kind, limit, length, form, position, lines, segmentation). Length limit+1 is generated but not judged. The error flood also comes from a peer that does not take the replies (reply writes fail, or block until WriteTimeout), with a sentinel command behind it.",
 		Gen:      genC19,
 		Check:    checkC19,
 		Classify: classifyC19,
@@ -543,7 +554,7 @@ func init() {
 		Real:        []string{"smtp.Server.Serve/handleConn", "smtp.Conn command loop, protocolError, panic recovery", "lineLimitReader", "parseCmd and argument parsers", "net/textproto", "bufio"},
 		Stub:        []string{"net.Listener (SimListener)", "net.Conn (SimConn; counts the octets the server pulls)", "Backend/Session (SimBackend)", "clock (synctest)", "SMTP client (raw driver)", "Server.ErrorLog (recording logger)"},
 		Assumptions: []string{"only unknown verbs and lines not of the shape VERB [SP args] are used as 'unrecognised or malformed'; argument-level syntax errors are counted neither way", "an unrecovered panic kills the worker process and is reported by verifctl as a process-crash violation"},
-		Required:    []string{"endless_line_after_bdat_chunk", "probe_after_chunk_refused_by_backend", "probe_line_in_the_same_segment_as_a_chunk", "limit_crossed_across_segments", "limit_crossed_inside_one_segment", "error_threshold_reached", "line_len_limit+2", "line_len_limit+0", "error_flood_while_reply_writes_fail", "mail_rcpt_arguments_from_fragments", "fragment_arguments_accepted_by_parser"},
+		Required:    []string{"endless_line_after_bdat_chunk", "probe_after_chunk_refused_by_backend", "probe_line_in_the_same_segment_as_a_chunk", "limit_crossed_across_segments", "limit_crossed_inside_one_segment", "error_threshold_reached", "line_len_limit+2", "line_len_limit+0", "error_flood_while_reply_writes_fail", "endless_line_with_CR_at_intervals", "mail_rcpt_arguments_from_fragments", "fragment_arguments_accepted_by_parser"},
 		QuickRuns:   120000, ThoroughRuns: 3000000,
 	})
 }
